@@ -9,6 +9,8 @@ Case (JSON):
    "re": {"record_interruptions": bool, "call_returns_result": bool, "md": {...}, "call_md": {...}},
    "faults": [{"dev","op","n","kind": "raise"|"status_fail"|"hang", "dt": float}],
    "stages": [{"do": "call"|"resume"|"abort"|"stop"|"halt", "inj": [INJ, ...]}, ...],
+             (also {"do": "put", "sig": name, "value": v}: Sig.put on the main thread between blocking calls,
+              executed in any state, recorded in obs.injected with k=-1 and inj["main_thread"]=True)
    "probe": bool}
   INJ = {"at": k, "do": "pause"|"defer"|"abort"|"stop"|"halt"|"suspend"|"put"|"release",
          "after": tau (optional virtual seconds after handle k),
@@ -74,6 +76,8 @@ def build_world(loop, case):
         dv.Flyer(world, name, **kw)
     for name, kw in spec.get("streamdets", {}).items():
         dv.StreamDet(world, name, **kw)
+    for name, kw in spec.get("cfgsigs", {}).items():
+        dv.CfgSig(world, name, **kw)
     return world
 
 
@@ -320,6 +324,37 @@ def _run(case, obs, keep_re):
         state = str(RE.state)
         rec = {"do": do, "state_before": state}
         obs.calls.append(rec)
+        if do == "put":
+            # (C41) Sig.put made by the main thread between two blocking calls, i.e. while the engine is
+            # paused or idle and the loop is quiescent (an EPICS update arriving during a pause).  Never
+            # skipped; recorded in obs.injected like a loop-thread `put` injection (k = -1).
+            if not loop.wait_idle():
+                obs.harness_error = f"loop did not become idle before stage {si}"
+                return
+            seg["i"] = si
+            rec["hook_start"] = rec["hook_end"] = len(obs.hook)
+            obs.injected.append(
+                {
+                    "inj": {"do": "put", "sig": stage["sig"], "value": stage["value"], "main_thread": True},
+                    "k": -1,
+                    "hook_index": len(obs.hook),
+                    "state": state,
+                    "open_runs": sum(1 for b in RE._run_bundlers.values() if b.run_is_open),
+                    "total": loop.total,
+                    "seg": si,
+                    "vtime": loop.time(),
+                    "ledger": len(world.ledger),
+                }
+            )
+            try:
+                world.devices[stage["sig"]].put(stage["value"])
+                rec["outcome"] = "return"
+                rec["value"] = None
+            except Exception as e:  # noqa: BLE001  (a subscriber raised)
+                rec["outcome"] = "raise"
+                rec["exc"] = e
+            rec["state_after"] = str(RE.state)
+            continue
         if do != "call" and state != "paused" and not stage.get("force"):
             rec["outcome"] = "skipped"
             continue
